@@ -44,7 +44,11 @@ Inductive event :=
 | EvUp (c : nat) | EvDown (c : nat)
 | EvFin (c : nat)               (* ::shutdown(fd, SHUT_WR) of connection c *)
 | EvConnClose (s : nat)         (* ~TcpConnection closes its descriptor *)
-| EvHack (d : Z).               (* ~TcpClient's keep-alive timer entered the timer queue, d ms ahead *)
+| EvHack (d : Z)                (* ~TcpClient's keep-alive timer entered the timer queue, d ms ahead *)
+(* ghost markers of the API calls (not printed by the runners; the trace theorems speak about them) *)
+| EvWant                        (* Connector::connect_ := true  (Connector::start / restart) *)
+| EvStopReq                     (* Connector::connect_ := false (Connector::stop) *)
+| EvCycle.                      (* a new connect cycle begins: startInLoop called by start() or by restart() *)
 
 Record st := mkSt {
   alive : bool;
@@ -206,7 +210,7 @@ Definition removeAndResetChannel (s : st) : option (st * nat) :=
 (* Connector::restart, Connector.cc:119-126 *)
 Definition restart (s : st) : M :=
   let s := set_k_connect (set_k_delay (set_k_state s KDisconnected) Connector_kInitRetryDelayMs) true in
-  startInLoop s.
+  bind (Some (s, [EvWant; EvCycle])) startInLoop.
 
 (* ---------------------------------------------------------------- TcpClient.cc *)
 (* TcpClient::newConnection, TcpClient.cc:132-160 (incl. TcpConnection::connectEstablished) *)
@@ -338,7 +342,7 @@ Definition finish (m : M) : M := bind (bind m gc) settle.
 (* ---------------------------------------------------------------- the functor queue *)
 Definition run_functor (s : st) (f : functor) : M :=
   match f with
-  | FStart => if k_dead s then None else startInLoop s
+  | FStart => if k_dead s then None else bind (Some (s, [EvCycle])) startInLoop
   | FStop => if k_dead s then None else stopInLoop s
   | FResetChannel => if k_dead s then None else ret (set_k_chan s None)
   | FConnDestroyed c =>
@@ -442,7 +446,7 @@ Definition destroy_rest (s : st) (snap : option nat * bool) (on_loop : bool) : M
         (if unique then conn_forceClose s c else s, [])
     | None =>
         let s := enq (set_k_connect s false) FStop in               (* connector_->stop() *)
-        if on_loop then (set_timers s (timers s ++ [(now s + 1000, THack)]), [EvHack 1000])
+        if on_loop then (set_timers s (timers s ++ [(now s + 1000, THack)]), [EvStopReq; EvHack 1000])
         else (enq s (FAddHack (now s + 1000)), [])
     end in
   Some (set_dsnap (set_alive (set_connection s None) false) None, ev).
@@ -451,18 +455,18 @@ Definition step_core (s : st) (o : op) : option M :=      (* outer None = Reject
   match o with
   | Connect =>
       if negb (user_api_ok s) then None else
-      Some (startInLoop (set_k_connect (set_c_connect s true) true))
+      Some (bind (Some (set_k_connect (set_c_connect s true) true, [EvWant; EvCycle])) startInLoop)
   | XConnectFlags =>
       if negb (user_api_ok s) || xc s then None else
-      Some (ret (set_xc (set_k_connect (set_c_connect s true) true) true))
+      Some (Some (set_xc (set_k_connect (set_c_connect s true) true) true, [EvWant]))
   | XConnectEnq =>
       if negb (user_api_ok s) || negb (xc s) then None else Some (ret (enq (set_xc s false) FStart))
   | Stop =>
       if negb (user_api_ok s) then None else
-      Some (ret (enq (set_k_connect (set_c_connect s false) false) FStop))
+      Some (Some (enq (set_k_connect (set_c_connect s false) false) FStop, [EvStopReq]))
   | XStopFlags =>
       if negb (user_api_ok s) || xs s then None else
-      Some (ret (set_xs (set_k_connect (set_c_connect s false) false) true))
+      Some (Some (set_xs (set_k_connect (set_c_connect s false) false) true, [EvStopReq]))
   | XStopEnq =>
       if negb (user_api_ok s) || negb (xs s) then None else Some (ret (enq (set_xs s false) FStop))
   | Disconnect =>
@@ -485,7 +489,8 @@ Definition step_core (s : st) (o : op) : option M :=      (* outer None = Reject
       if negb (user_api_ok s) || xc s || xs s || xd s then None else
       (* the stall point is the first enqueue: in the no-connection path Connector::stop() has already stored connect_ = false *)
       let s' := match connection s with None => set_k_connect s false | Some _ => s end in
-      Some (ret (set_dsnap s' (Some (connection s, match connection s with Some c => (refs s c =? 1)%nat | None => false end))))
+      Some (Some (set_dsnap s' (Some (connection s, match connection s with Some c => (refs s c =? 1)%nat | None => false end)),
+                  match connection s with None => [EvStopReq] | Some _ => [] end))
   | XDestroyRest =>
       match dsnap s with
       | Some snap => Some (destroy_rest (set_dsnap s None) snap false)
@@ -561,4 +566,56 @@ Fixpoint run (s : st) (l : list op) : option (st * list event) :=
       | Rejected => run s r
       | Fault => None
       end
+  end.
+
+(* ---------------------------------------------------------------- the hypotheses of the theorems, as
+   computable predicates on (state, next op); the generators of the check use the same functions.
+   quiet: nothing of a connect cycle is left in the connector. *)
+Definition is_retry_timer (t : Z * tkind) : bool := match snd t with TRetry => true | THack => false end.
+Definition is_FStart (f : functor) : bool := match f with FStart => true | _ => false end.
+Definition is_FStop (f : functor) : bool := match f with FStop => true | _ => false end.
+Definition is_FReset (f : functor) : bool := match f with FResetChannel => true | _ => false end.
+Definition is_kfunctor (f : functor) : bool := is_FStart f || is_FStop f || is_FReset f.   (* bound to the raw Connector* *)
+
+Definition quiet (s : st) : bool :=
+  kstate_eqb (k_state s) KDisconnected && negb (is_some (k_chan s)) && negb (existsb is_retry_timer (timers s))
+  && negb (is_some (connection s)).
+(* Idle (DESIGN C12): what `connect() only while no attempt or connection is in progress` has to mean for
+   the code as it is: state kDisconnected, no channel, no connection, no other connect() in flight,
+   no retry timer of an earlier cycle pending and the back-off delay at its initial value *)
+Definition idle (s : st) : bool :=
+  quiet s && negb (xc s) && negb (existsb is_FStart (pending s)) && (k_delay s =? Connector_kInitRetryDelayMs).
+(* the precondition as the property text states it: no attempt (a connect cycle the user still wants)
+   and no connection in progress *)
+Definition text_idle (s : st) : bool :=
+  negb (kstate_eqb (k_state s) KConnecting) && negb (is_some (connection s)) && negb (xc s)
+  && negb (existsb is_FStart (pending s)) && negb (k_connect s && existsb is_retry_timer (timers s)).
+(* environment contract of TimerFire: the loop is not stalled so long that a timer expires while a functor
+   that has to run first is still queued: resetChannel always; once the client is gone, startInLoop /
+   stopInLoop must not be outlived by the last timer that keeps the Connector alive *)
+Definition timely (s : st) : bool :=
+  negb (existsb is_FReset (pending s)) &&
+  (alive s || negb (existsb is_kfunctor (pending s)) ||
+   match min_due (timers s) with
+   | None => true
+   | Some t0 => existsb (fun t => Z.max (now s) t0 <? fst t) (timers s)
+   end).
+(* ~TcpClient with a connection releases the Connector at once: none of its raw-this functors may be queued *)
+Definition destroy_ok (s : st) : bool :=
+  negb (is_some (connection s)) || negb (existsb is_kfunctor (pending s)).
+
+Definition contract (s : st) (o : op) : bool :=
+  match o with
+  | Connect | XConnectFlags => idle s
+  | TimerFire => timely s
+  | Destroy => destroy_ok s
+  | XDestroyRead | XDestroyRest => false        (* the theorems are about destruction on the loop thread *)
+  | _ => true
+  end.
+(* what the property text allows (used by the generator; the difference to `contract` are the findings) *)
+Definition text_contract (s : st) (o : op) : bool :=
+  match o with
+  | Connect | XConnectFlags => text_idle s
+  | TimerFire => timely s
+  | _ => true
   end.
